@@ -398,29 +398,29 @@ func (reader *DataReader) next() ([]byte, *DataPos, error) {
 		off := int64(reader.blockID) * blockSize
 		// 文件恰好结束于 block 末尾的填充区域之前
 		if off >= fileSize {
-			return nil, nil, io.EOF
+			return nil, nil, reader.fail(pos, cnt, io.EOF)
 		}
 		// 当前 block 实际大小
 		size := uint32(min(fileSize-off, blockSize))
 
 		if reader.offset >= size {
-			return nil, nil, io.EOF
+			return nil, nil, reader.fail(pos, cnt, io.EOF)
 		}
 
 		// 从共享缓冲区中读取
 		_, err := reader.dataFile.ReadWriter.Read(reader.blockBuf[0:size], off)
 		if err != nil {
-			return nil, nil, err
+			return nil, nil, reader.fail(pos, cnt, err)
 		}
 
 		// 对当前 chunk 解码
 		data, chunkType, err := DecodeChunk(reader.blockBuf[reader.offset:size])
 		if err != nil {
-			return nil, nil, err
+			return nil, nil, reader.fail(pos, cnt, err)
 		}
 		// 校验 chunk 类型顺序: 记录以 Full / First 开始, 其后只能是 Middle / Last
 		if (cnt == 0) != (chunkType == Full || chunkType == First) {
-			return nil, nil, ErrInvalidCRC
+			return nil, nil, reader.fail(pos, cnt, ErrInvalidCRC)
 		}
 		res = append(res, data...)
 		cnt++
@@ -441,6 +441,31 @@ func (reader *DataReader) next() ([]byte, *DataPos, error) {
 	pos.Size = cnt*chunkHeaderSize + uint32(len(res))
 
 	return res, pos, nil
+}
+
+// 读取失败时将游标恢复到该条记录的起始位置, 使 Offset 指向最后一条完整记录的末尾
+// 文件在一条记录的中途结束 (已读取部分 chunk) 不属于正常结束
+func (reader *DataReader) fail(start *DataPos, cnt uint32, err error) error {
+	reader.blockID, reader.offset = start.BlockID, start.Offset
+	if err == io.EOF && cnt > 0 {
+		return io.ErrUnexpectedEOF
+	}
+	return err
+}
+
+// Offset 下一条待读取记录在文件中的起始偏移量
+func (reader *DataReader) Offset() int64 {
+	return int64(reader.blockID)*blockSize + int64(reader.offset)
+}
+
+// Truncate 将文件截断到指定大小, 后续写入从该位置继续
+func (df *DataFile) Truncate(size int64) error {
+	if err := df.ReadWriter.Truncate(size); err != nil {
+		return err
+	}
+	df.lastBlockID = uint32(size / blockSize)
+	df.lastBlockSize = uint32(size % blockSize)
+	return nil
 }
 
 func (df *DataFile) Size() int64 {
